@@ -11,7 +11,7 @@ import pandas as pd
 
 from . import api
 from .fworld import rng_of
-from .monitors import digest, InitialSize, integrator_state
+from .monitors import digest, InitialSize, KernelShim, integrator_state
 from .shrink import ddmin_list
 
 PROP = 'C19'
@@ -213,7 +213,9 @@ def execute(sc, only_first=True):
     records = []
     digs = []
     reloads0 = _RELOAD['n']
-    with InitialSize(sc.get('initial_size', 10000)):
+    # the kernel bounds shim turns a write past the state buffers into an exception (class
+    # call-failed) instead of heap corruption that would take the worker process down
+    with InitialSize(sc.get('initial_size', 10000)), KernelShim():
         cx = api.Context(rng_of(sc['world_seed']))
         for k, (tname, oseed) in enumerate(sc['ops']):
             r = rng_of(oseed)
